@@ -34,8 +34,10 @@ theorem coll_head_ne_anyOf (c : Coll) : (c.head == Head.anyOf) = false := by cas
 
 /-! ### objects -/
 
+/-- a `typing.Union` or a PEP-604 `types.UnionType` (both are flattened by an enclosing union) -/
 def isTUnion : Obj → Bool
   | .tUnion _ => true
+  | .uType _ => true
   | _ => false
 
 def isNoneTy : Obj → Bool
@@ -65,7 +67,7 @@ theorem getItem_of_gtli {o : Obj} {m : FieldDecl} (h : gtli ptm o = .ok (some m)
   | ty a => simp [getItem, getItemFallback, h]
   | alias t og args => simp [getItem, getItemFallback, h]
   | tUnion ms => simp [getItem, getItemFallback, h]
-  | uType ms => simp [gtli] at h
+  | uType ms => simp [getItem, getItemFallback, h]
   | noneTy => simp [getItem, getItemFallback, h]
 
 theorem mapToField_of_gtli {o : Obj} {m : FieldDecl} (h : gtli ptm o = .ok (some m)) (hf : isFieldObj o = true) :
@@ -82,7 +84,7 @@ theorem unionMembers_of_gtli {o : Obj} {m : FieldDecl} (h : gtli ptm o = .ok (so
     unionMembers o = [o] := by
   cases o with
   | tUnion ms => simp [isTUnion] at hu
-  | uType ms => simp [gtli] at h
+  | uType ms => simp [isTUnion] at hu
   | noneV => simp [gtli] at h
   | _ => rfl
 
@@ -115,23 +117,67 @@ theorem good_tUnion (s : Sp) {a b : Obj} {ma mb : FieldDecl} (ha : gtli ptm a = 
     fun h => by cases s <;> simp [kwAllowed, unionLike] at h hu⟩
 
 
+theorem mkUType_pair {a b : Obj} (h : objEq a b = false) : mkUType [a, b] = .uType [a, b] := by
+  simp [mkUType, dedupObj, h]
+
+theorem gtli_uType_pair {a b : Obj} {ma mb : FieldDecl} (ha : gtli ptm a = .ok (some ma))
+    (hb : gtli ptm b = .ok (some mb)) : gtli ptm (.uType [a, b]) = .ok (some (.anyOf [ma, mb])) := by
+  simp [gtli, cbt_tunion, gtliArgs_two _ ha hb, mkFromArgs, someDecl]
+
+/-- a PEP-604 union of two plain types is consumed like `typing.Union` of them -/
+theorem good_uType (s : Sp) {a b : Obj} {ma mb : FieldDecl} (ha : gtli ptm a = .ok (some ma))
+    (hb : gtli ptm b = .ok (some mb)) (hd : denote s = .anyOf [ma, mb]) (hf : isFieldExpr s = false)
+    (hu : unionLike s = true) (hk : kwAllowed s = false) : Good s (.uType [a, b]) :=
+  ⟨by rw [gtli_uType_pair ha hb, hd], by simp [isFieldObj, hf], fun h => by simp [hu] at h, rfl,
+    fun h => by simp [hk] at h⟩
+
+theorem plainSp_not_field {s : Sp} (h : plainSp s = true) : isFieldExpr s = false := by
+  cases s <;> simp [plainSp] at h <;> rfl
+
+theorem plainSp_plainType {s : Sp} {o : Obj} (h : plainSp s = true) (hev : ev ptm s = .ok o) :
+    plainType ptm o = true := by
+  cases s <;> simp [plainSp] at h
+  case builtin k =>
+    simp [ev] at hev; subst hev
+    cases k <;> first | rfl | simp at h
+  case bareBuiltin c => simp [ev] at hev; subst hev; cases c <;> rfl
+  case dictBare => simp [ev] at hev; subst hev; rfl
+  case pep585 c x =>
+    simp only [ev] at hev
+    cases hx : ev ptm x with
+    | error e => simp [hx] at hev
+    | ok ox => simp [hx] at hev; subst hev; rfl
+  case dict585 k v =>
+    simp only [ev] at hev
+    cases hk : ev ptm k with
+    | error e => simp [hk] at hev
+    | ok ok' =>
+      cases hv : ev ptm v with
+      | error e => simp [hk, hv] at hev
+      | ok ov => simp [hk, hv] at hev; subst hev; rfl
+
+theorem plainRightSp_plainRight {s : Sp} {o : Obj} (h : plainRightSp s = true) (hev : ev ptm s = .ok o) :
+    plainRight ptm o = true := by
+  by_cases hp : plainSp s = true
+  · have := plainSp_plainType hp hev
+    cases o <;> simp_all [plainRight]
+  · cases s <;> simp [plainRightSp] at h <;> first | (simp [ev] at hev; subst hev; rfl) | (exact absurd h hp)
+
+/-- `_or_fields` with a non-field right operand that `get_typing_lib_info` converts -/
+theorem orFields_converted {l r : Obj} {dl dr : FieldDecl} (hl : getItem ptm l = .ok dl)
+    (hr : gtli ptm r = .ok (some dr)) (hf : isFieldObj r = false) :
+    orFields ptm l r = .ok (.finst (.anyOf [dl, dr])) := by
+  cases r with
+  | noneV => simp [gtli] at hr
+  | fcls h => simp [isFieldObj] at hf
+  | finst d => simp [isFieldObj] at hf
+  | _ => simp [orFields, hl, isFieldObj, orConverted, hr]
+
 theorem isNoneLit_eq {y : Sp} (h : isNoneLit y = true) : y = .noneLit := by
   cases y <;> simp [isNoneLit] at h ⊢
 
-theorem plainRight_cbt {y : Sp} {oy : Obj} (h : plainRightSp y = true) (hev : ev ptm y = .ok oy) :
-    ∃ hd, cbtObj ptm oy = some hd ∧ defaultDecl hd = .ok (denote y) ∧ isFieldObj oy = false := by
-  cases y <;> simp [plainRightSp] at h
-  case builtin k =>
-    simp [ev] at hev; subst hev
-    exact ⟨k.head, by simp [cbtObj, cbt_scalar], by simp [default_scalar, denote], rfl⟩
-  case bareBuiltin c =>
-    simp [ev] at hev; subst hev
-    exact ⟨c.head, by simp [cbtObj, cbt_coll], by simp [default_coll, denote], rfl⟩
-  case dictBare =>
-    simp [ev] at hev; subst hev
-    exact ⟨.map, by simp [cbtObj, cbt_dict], by simp [defaultDecl, denote], rfl⟩
-
 theorem unionMembers_noneV : unionMembers .noneV = [.noneTy] := rfl
+theorem isFieldObj_noneV : isFieldObj .noneV = false := rfl
 theorem getItem_noneV : getItem ptm .noneV = .ok .noneF := rfl
 
 /-- Main lemma: a supported spelling evaluates, and the resulting object is consumed as its documented
@@ -276,23 +322,50 @@ theorem ev_good : ∀ s : Sp, supported ptm s = true → ∃ o, ev ptm s = .ok o
         by simp [ev, hevx, hevy, getItem_of_gtli gx.gt, getItem_of_gtli gy.gt], good_finst _ _ rfl rfl⟩
   | pipe x y ihx ihy =>
     intro h
-    simp only [supported, Bool.and_eq_true, Bool.or_eq_true] at h
-    obtain ⟨⟨⟨hx, hfx⟩, hy⟩, hr⟩ := h
+    simp only [supported, Bool.and_eq_true] at h
+    obtain ⟨hx, hrest⟩ := h
     obtain ⟨ox, hevx, gx⟩ := ihx hx
-    obtain ⟨oy, hevy, gy⟩ := ihy hy
-    have hfo : isFieldObj ox = true := by rw [gx.fo]; exact hfx
-    refine ⟨.finst (.anyOf [denote x, denote y]), ?_, good_finst _ _ rfl (by simp [isFieldExpr, hfx])⟩
-    by_cases hfy : isFieldExpr y = true
-    · have hfoy : isFieldObj oy = true := by rw [gy.fo]; exact hfy
-      simp [ev, hevx, hevy, pipeObj, hfo, orFields, hfoy, getItem_of_gtli gx.gt, getItem_of_gtli gy.gt]
-    · have hp : plainRightSp y = true := by
-        rcases hr with hr | hr
-        · exact absurd hr hfy
-        · exact hr
-      obtain ⟨hd, hc, hdd, hnf⟩ := plainRight_cbt hp hevy
-      simp [ev, hevx, hevy, pipeObj, hfo, orFields, hnf, hc, hdd, getItem_of_gtli gx.gt]
-
-
+    by_cases hfx : isFieldExpr x = true
+    · -- `Field | …`: `_or_fields`
+      simp only [hfx, if_true, Bool.or_eq_true] at hrest
+      have hfo : isFieldObj ox = true := by rw [gx.fo]; exact hfx
+      rcases hrest with hy | hy
+      · have := isNoneLit_eq hy; subst this
+        exact ⟨.finst (.anyOf [denote x, .noneF]),
+          by simp [ev, hevx, pipeObj, hfo, orFields, isFieldObj_noneV, getItem_of_gtli gx.gt],
+          good_finst _ _ (by simp [denote]) (by simp [isFieldExpr, hfx])⟩
+      · obtain ⟨oy, hevy, gy⟩ := ihy hy
+        refine ⟨.finst (.anyOf [denote x, denote y]), ?_, good_finst _ _ rfl (by simp [isFieldExpr, hfx])⟩
+        by_cases hfoy : isFieldObj oy = true
+        · simp [ev, hevx, hevy, pipeObj, hfo, orFields, hfoy, getItem_of_gtli gx.gt, getItem_of_gtli gy.gt]
+        · have hfoy' : isFieldObj oy = false := by simpa using hfoy
+          simp [ev, hevx, hevy, pipeObj, hfo, orFields_converted (getItem_of_gtli gx.gt) gy.gt hfoy']
+    · -- `int | str`: a `types.UnionType`, which `get_typing_lib_info` treats like `typing.Union`
+      have hfx' : isFieldExpr x = false := by simpa using hfx
+      simp only [hfx', Bool.false_eq_true, if_false, Bool.and_eq_true, Bool.or_eq_true, Bool.not_eq_true'] at hrest
+      obtain ⟨⟨hpx, hy⟩, hd⟩ := hrest
+      have hfo : isFieldObj ox = false := by rw [gx.fo]; exact hfx'
+      have hptx := plainSp_plainType hpx hevx
+      have hux : unionLike x = false := by cases x <;> simp [plainSp] at hpx <;> rfl
+      have hmx := unionMembers_of_gtli gx.gt (gx.nu hux)
+      have hk : kwAllowed (Sp.pipe x y) = false := rfl
+      rcases hy with hy | hy
+      · have := isNoneLit_eq hy; subst this
+        refine ⟨.uType [ox, .noneTy],
+          by simp [ev, hevx, pipeObj, hfo, hptx, plainRight, hmx, unionMembers_noneV,
+            mkUType_pair (objEq_noneTy gx.nn)], ?_⟩
+        exact good_uType (mb := .noneF) _ gx.gt (by simp [gtli]) (by simp [denote]) (by simp [isFieldExpr, hfx'])
+          (by simp [unionLike, hfx']) hk
+      · obtain ⟨⟨hsy, hpy⟩, huy⟩ := hy
+        obtain ⟨oy, hevy, gy⟩ := ihy hsy
+        have hpry := plainRightSp_plainRight hpy hevy
+        have hmy := unionMembers_of_gtli gy.gt (gy.nu huy)
+        have hne : objEq ox oy = false := by
+          simp [distinctObjs, hevx, hevy, typingArg_of_gtli gx.gt, typingArg_of_gtli gy.gt] at hd
+          exact hd
+        refine ⟨.uType [ox, oy],
+          by simp [ev, hevx, hevy, pipeObj, hfo, hptx, hpry, hmx, hmy, mkUType_pair hne], ?_⟩
+        exact good_uType _ gx.gt gy.gt rfl (by simp [isFieldExpr, hfx']) (by simp [unionLike, hfx']) hk
 
 theorem sameMeaning_denote {s t : Sp} (h : SameMeaning s t) : denote s = denote t := by
   induction h with
@@ -329,8 +402,7 @@ theorem elabField_meaning' (O : Oracles) (future : Bool) (fs : FieldSp)
   have hgi := getItem_of_gtli g.gt
   cases mode with
   | ann =>
-    simp only [Bool.not_eq_true'] at hm
-    simp only [elabField, hm]
+    simp only [elabField]
     cases dflt with
     | none =>
       simp only [evTop, hev, bindE_ok, annField, fieldMeaning, DefaultSp.value, effOptional]
